@@ -216,11 +216,14 @@ class Sweep:
         n = len(ops)
         self.n_rows += n
         ctx.count(None, n=n)
-        self.bulk += n            # (block, formats, a, b) distinct by construction: a table is built once per key, rows are distinct
-        if len(ctx.cov['samples']) < 8 and n and block not in [s.get('block') for s in ctx.cov['samples']]:
-            k = n // 2 + 1 if n > 2 else 0
+        # (block, formats, a, b) distinct by construction: a table is built once per key, its rows are distinct, wide (sampled) tables use
+        # widths >= 7 and never overlap the exhaustive ones.  Non-trivial: the property makes a claim for the row and no operand is zero
+        self.bulk += sum(1 for (a, b) in ops if a != 0 and (b != 0 or block in ('sign', 'signx')) and oracle(block, fmts, a, b) is not None)
+        if n > 200 and len(ctx.cov['samples']) < 8 and block not in [s.get('block') for s in ctx.cov['samples']]:
+            k = (n * 5) // 7
             ctx.sample({'block': block, 'formats': [list(F) for F in fmts], 'a': ops[k][0], 'b': ops[k][1], 'impl': out[k],
-                        'oracle': oracle(block, fmts, *ops[k])})
+                        'oracle': oracle(block, fmts, *ops[k]),
+                        'decoded_operands': [str(dec(fmts[0], ops[k][0])), str(dec(fmts[1] if block == 'mul' else fmts[0], ops[k][1]))]})
         if to_coq:
             self.tables.append((block, fmts, rows is None, list(ops), out))
 
@@ -256,15 +259,20 @@ class Sweep:
                 for row in res[n]:
                     a, b, r, m, s = row
                     nbad += 1
-                    if nbad > 3: continue
                     exp = oracle(block, fmts, a, b)
+                    rec = {'block': block, 'formats': [list(F) for F in fmts], 'a': a, 'b': b,
+                           'impl': r, 'coq_model': m, 'coq_spec': s, 'python_oracle': exp}
+                    if nbad > 1 or self.failed:
+                        ctx.notes.setdefault('more_coq_mismatches', [])
+                        if len(ctx.notes['more_coq_mismatches']) < 10: ctx.notes['more_coq_mismatches'].append(rec)
+                        continue
                     if m != r:
-                        what = 'Coq model (Model/Fxp.v over the regenerated primitives) and the real block disagree: correspondence broken'
+                        rec['what'] = ('Coq model (Model/Fxp.v over the regenerated primitives) and the real block disagree: correspondence broken; '
+                                       'the real block agrees with the rational oracle on every operand tried')
+                        ctx.violation(rec, found_input=False)
                     else:
-                        what = 'Coq spec (Spec/C14.v) and the real block disagree'
-                    found = (s != r) and not (exp is not None and exp == r)
-                    ctx.violation({'what': what, 'block': block, 'formats': [list(F) for F in fmts], 'a': a, 'b': b,
-                                   'impl': r, 'coq_model': m, 'coq_spec': s, 'python_oracle': exp}, found_input=found)
+                        rec['what'] = 'Coq spec (Spec/C14.v) and the real block disagree (the Python oracle does not: the two statements of the property differ)'
+                        ctx.violation(rec, found_input=True)
         ctx.notes['coq_rows'] = ctx.notes.get('coq_rows', 0) + sum(len(t[4]) for b in files for _, _, t in b)
         return nbad
 
@@ -294,72 +302,82 @@ def rand_format(rng, wmin, wmax):
     return (1, i, w - 1 - i)
 
 
-def run(ctx):
-    ctx.cov['rule'] = ('obligations: theorems of Properties/C14.v. Correspondence case = (block, formats, operand a, operand b) on the REAL object; '
-                       'tables enumerate all operand pairs for every format of width <= 5 (same-format blocks, helper) and for mixed a/b/r multiplier '
-                       'formats, plus boundary x boundary + random operands for formats up to 64 bits; distinct by construction (each (block, formats) '
-                       'table is built once, its rows are distinct); every case is non-trivial (drives the block and compares its output with the '
-                       'rational oracle; rows without a claim - comparator with unrepresentable difference, helper with 0 integer bits - still check impl vs model)')
-    missing = ctx.regen(NEEDED)
-    r = ctx.prove(['Properties/C14.v'])
-    ctx.log('proof build: ok=%s' % r['ok'])
-    rng = random.Random(ctx.seed)
-    sw = Sweep(ctx)
+def sweep(ctx, sw, rng):
+    """drives every table; returns (coq status small, coq status big); stops as soon as a failing input is reported"""
     quick = ctx.quick
-
+    st = st2 = 0
     # 1. exhaustive: every format of width <= 5, every operand pair, every same-format block and the helper -> Coq + oracle
     small = formats_upto(5)
     for F in small:
         for block in ('add', 'sub', 'sign', 'cmp', 'cmpeq', 'hadd', 'hsub', 'hmul'):
             sw.table(block, (F,))
         sw.table('mul', (F, F, F))
-    # 2. multiplier with mixed formats.  Through Coq: all triples of width <= 3 and a random sample of wider ones;
-    #    oracle only: all triples of width <= 4 (quick) / <= 5 (thorough)
-    f3 = formats_upto(3)
-    for trip in itertools.product(f3, repeat=3):
-        sw.table('mul', trip)
-    allf = formats_upto(4 if quick else 5)
-    for trip in rng.sample(list(itertools.product(small, repeat=3)), 40 if quick else 300):
-        sw.table('mul', trip)
-    ctx.log('small tables driven: %d rows' % sw.n_rows)
-    st = sw.flush('C14_small')
-    ctx.log('small tables evaluated in Coq: %s mismatches' % st)
-    for trip in itertools.product(allf, repeat=3):
-        sw.table('mul', trip, to_coq=False)
-        if sw.failed: break
-    # 3. rejected configurations: mixed formats for add/sub, sign-bit count != 1 for the sign block
+        if sw.failed: return st, st2
+    # 2. rejected configurations: mixed formats for add/sub, sign-bit count != 1 for the sign block
     for (af, bf, rf) in [((1, 1, 1), (1, 2, 0), (1, 1, 1)), ((1, 1, 1), (1, 1, 1), (1, 0, 2)), ((1, 2, 1), (1, 1, 2), (1, 1, 2))]:
         sw.table('addx', (af, bf, rf), rows=[(1, 2), (3, 3)])
         sw.table('subx', (af, bf, rf), rows=[(1, 2), (3, 3)])
     sw.table('signx', ((2, 1, 1),), rows=[(9, 0)])
     sw.table('signx', ((0, 2, 2),), rows=[(9, 0)])
+    # 3. multiplier with mixed a/b/r formats.  Through Coq: all triples of width <= 3 and a random sample of wider ones;
+    #    oracle only: ALL triples of width <= 5 (quick) / <= 6 (thorough), every operand pair
+    for trip in itertools.product(formats_upto(3), repeat=3):
+        sw.table('mul', trip)
+    for trip in rng.sample(list(itertools.product(small, repeat=3)), 40 if quick else 400):
+        sw.table('mul', trip)
+    if sw.failed: return st, st2
+    ctx.log('small tables driven: %d rows' % sw.n_rows)
+    st = sw.flush('C14_small')
+    ctx.log('small tables evaluated in Coq: %s mismatches' % st)
+    for trip in itertools.product(formats_upto(5 if quick else 6), repeat=3):
+        sw.table('mul', trip, to_coq=False)
+        if sw.failed: return st, st2
+    ctx.log('mixed-format multiplier tables driven (rational oracle): %d rows so far' % sw.n_rows)
     # 4. wide formats: boundary x boundary + random operands, up to 64 bits
-    nbig = 10 if quick else 60
+    nbig = 12 if quick else 80
     for k in range(nbig):
-        F = rand_format(rng, 6, 64) if k else (1, 31, 32)
+        F = rand_format(rng, 7, 64) if k else (1, 31, 32)
         rows = big_rows(rng, width(F), width(F), 14)
         for block in ('add', 'sub', 'cmp', 'cmpeq', 'hadd', 'hsub', 'hmul'):
             sw.table(block, (F,), rows=rows)
         sw.table('sign', (F,), rows=[(a, 0) for a, _ in rows])
         sw.table('mul', (F, F, F), rows=rows)
-        # mixed multiplier formats: one inside the guards, one arbitrary (may raise / may be in the C14-F1 region)
-        af, bf = rand_format(rng, 2, 64), rand_format(rng, 2, 64)
+        # mixed multiplier formats: one inside the guards of C14_mul, one arbitrary (may raise / may be in the C14-F1 region)
+        af, bf = rand_format(rng, 7, 64), rand_format(rng, 2, 64)
         low = rng.randint(0, af[2] + bf[2]); fr = af[2] + bf[2] - low
-        wr = rng.randint(max(fr + 1, 1), max(fr + 1, width(af) + width(bf) - low))
+        wr = rng.randint(fr + 1, max(fr + 1, width(af) + width(bf) - low))
         rf = (1, wr - 1 - fr, fr)
         sw.table('mul', (af, bf, rf), rows=big_rows(rng, width(af), width(bf), 14))
         rf2 = rand_format(rng, 1, 64)
         sw.table('mul', (af, bf, rf2), rows=big_rows(rng, width(af), width(bf), 10))
+        if sw.failed: return st, st2
     ctx.log('all tables driven: %d rows' % sw.n_rows)
     st2 = sw.flush('C14_big')
     ctx.log('wide tables evaluated in Coq: %s mismatches' % st2)
+    return st, st2
+
+
+def run(ctx):
+    ctx.cov['rule'] = ('obligations: theorems of Properties/C14.v. Correspondence case = (block, formats, operand a, operand b) on the REAL object; '
+                       'tables enumerate all operand pairs for every format of width <= 5 (same-format blocks, helper) and for mixed a/b/r multiplier '
+                       'formats, plus boundary x boundary + random operands for formats up to 64 bits; distinct by construction (each (block, formats) '
+                       'table is built once, its rows are distinct, sampled wide tables never overlap exhaustive ones); a case counts as non-trivial when the property makes '
+                       'a claim for it (not: comparator with unrepresentable difference, helper with 0 integer bits, the C14-F1 region is still counted) and no operand is zero')
+    missing = ctx.regen(NEEDED)
+    r = ctx.prove(['Properties/C14.v'])
+    ctx.log('proof build: ok=%s missing=%s' % (r['ok'], missing))
+    rng = random.Random(ctx.seed)
+    sw = Sweep(ctx)
+    st, st2 = sweep(ctx, sw, rng)
 
     class _Distinct(set):
         bulk = 0
         def __len__(self): return set.__len__(self) + self.bulk
     d = _Distinct(ctx._distinct); d.bulk = sw.bulk; ctx._distinct = d
     ctx.cov['exhaustive'] = False
-    ctx.notes['exhaustive_part'] = 'all operand pairs for all 15 formats (1,i,f) of width <= 5: add, sub, sign, comparator, same-format mult, helper add/sub/mult'
+    ctx.notes['exhaustive_part'] = ('all operand pairs for all 15 formats (1,i,f) of width <= 5: add, sub, sign, comparator, same-format mult, helper add/sub/mult '
+                                    '(impl vs Coq model vs Coq spec vs rational oracle); all operand pairs for all mixed multiplier format triples of width <= %d '
+                                    '(impl vs rational oracle)' % (5 if ctx.quick else 6))
     ctx.notes['tables'] = len(sw.seen_tables)
     ctx.notes['rows_total'] = sw.n_rows
 
@@ -371,7 +389,8 @@ def run(ctx):
         what = ('translator rejected %s: %s' % (missing, {k: ctx.gen['errors'].get(k) for k in missing}) if missing else
                 'proof obligation no longer checks: %s in %s' % (r.get('lemma'), r.get('file')) if not r['ok'] else
                 'the Coq model/spec could not be evaluated: %s' % ctx.notes.get('coq_side_unavailable', '')[-600:])
-        ctx.violation({'what': what, 'theorem': r.get('lemma'), 'file': r.get('file'), 'coq_error': r.get('msg')}, found_input=False)
+        ctx.violation({'what': what + '; the real blocks agree with the rational oracle on every operand tried',
+                       'theorem': r.get('lemma'), 'file': r.get('file'), 'coq_error': r.get('msg')}, found_input=False)
     ctx.assumptions += [
         'Model/Fxp.v wires the regenerated primitives as the constructors of FixedPointAdd/Sub/Sign/Mult/Comparator (and Add, EqualConstant, Minterm, And) do '
         '(hand-written composition; checked on every run by evaluating it inside Coq against the real objects: exhaustively for widths <= 5, sampled to 64 bits)',
